@@ -187,6 +187,11 @@ pub fn check_case(entries: &[En], stream: bool, base: &Path, id: u64, st: &mut S
 pub const LAYOUTS: [&str; 10] = ["plain", "methods stored/deflate/bzip2/zstd by position", "data descriptors", "100 bytes of prepended data", "DOS made-by with DOS attributes", "forced ZIP64 fields and end records", "central directory in reverse order + gaps", "written by the crate's own ZipWriter", "central directory in reverse order, contiguous (streamable)", "central directory rotated by two records (streamable)"];
 /// added to a layout number: the target directory already holds a longer file (mode 0600) at every file path of the archive
 pub const PREPOPULATED: u8 = 16;
+/// added to a layout number: how the caller spells the target directory it passes to extract() - through a symbolic link to
+/// the target's parent, with a `sibling/..` detour, with a trailing `/.`. The directory meant is the same one.
+pub const VIA_SYMLINK: u8 = 32;
+pub const VIA_DOTDOT: u8 = 64;
+pub const VIA_DOT: u8 = 128;
 
 /// How the archive is laid out (index into LAYOUTS); the entries and the expected tree stay the same.
 fn bytes_for(entries: &[En], layout: u8) -> Vec<u8> {
@@ -269,7 +274,17 @@ pub fn check_case_layout(entries: &[En], stream: bool, base: &Path, id: u64, st:
         .map(|e| En { name: e.name.replace("{CANARY}", &sb.root.join("canary").to_string_lossy()), ..e.clone() })
         .collect();
     let prepopulate = layout & PREPOPULATED != 0;
-    let layout = layout & !PREPOPULATED;
+    let spelled: PathBuf = if layout & VIA_SYMLINK != 0 {
+        let _ = std::os::unix::fs::symlink(sb.root.join("l1/l2/l3"), sb.root.join("shortcut"));
+        sb.root.join("shortcut/target")
+    } else if layout & VIA_DOTDOT != 0 {
+        sb.root.join("l1/l2/l3/sibling/../target")
+    } else if layout & VIA_DOT != 0 {
+        sb.root.join("l1/l2/./l3/target/.")
+    } else {
+        target.clone()
+    };
+    let layout = layout & !(PREPOPULATED | VIA_SYMLINK | VIA_DOTDOT | VIA_DOT);
     let bytes = bytes_for(&entries, layout);
     if prepopulate && consistent(&entries) && entries.iter().all(|e| paths::safe(&e.name)) {
         // extraction overwrites: what was there before must not show through
@@ -291,9 +306,9 @@ pub fn check_case_layout(entries: &[En], stream: bool, base: &Path, id: u64, st:
     let before = snapshot(&sb.root, Some(&target));
     let r = guard(|| {
         if stream {
-            zip::unstable::stream::ZipStreamReader::new(std::io::Cursor::new(&bytes[..])).extract(&target).map_err(|e| e.to_string())
+            zip::unstable::stream::ZipStreamReader::new(std::io::Cursor::new(&bytes[..])).extract(&spelled).map_err(|e| e.to_string())
         } else {
-            zip::ZipArchive::new(std::io::Cursor::new(&bytes[..])).map_err(|e| format!("open: {e}")).and_then(|mut a| a.extract(&target).map_err(|e| e.to_string()))
+            zip::ZipArchive::new(std::io::Cursor::new(&bytes[..])).map_err(|e| format!("open: {e}")).and_then(|mut a| a.extract(&spelled).map_err(|e| e.to_string()))
         }
     });
     let after = snapshot(&sb.root, Some(&target));
@@ -536,6 +551,13 @@ fn name_shapes() -> Vec<String> {
         [
             "{CANARY}/pwned",
             "{CANARY}/keep",
+            // relative names whose tail spells the canary's absolute location (the substituted text begins with '/'): they
+            // are safe - the tree appears UNDER the target - unless a leading part is dropped somewhere on the way
+            "./{CANARY}/pwned",
+            "./{CANARY}/keep",
+            "././{CANARY}/pwned",
+            "a/../{CANARY}/pwned",
+            "a/{CANARY}/keep",
             "../../../../canary/pwned",
             "../../../../canary/keep",
             "a/../../sibling/s",
@@ -715,6 +737,23 @@ pub fn run(args: &Args) -> i32 {
         check_case(&e, stream, base_r, (3 << 40) + t, st, (3 << 40) + t, "three-entries");
     });
     ctx.stats.merge(s);
+    // the target directory spelled three other ways by the caller (through a symlinked parent, with a `sibling/..` detour, with
+    // `.` components): every ordered pair over 12 names, both extractors
+    {
+        let tn: Vec<String> = ["a", "a/", "a/b", "b/c/d", "c", "../x", "a/../b", "./a", "{CANARY}/pwned", "./{CANARY}/pwned", "d/", "ab.txt"].iter().map(|s| s.to_string()).collect();
+        let tn_r = &tn;
+        let nt = tn.len() as u64;
+        let s = par_for(nt * nt * 3 * 2, 8, |t, st| {
+            let stream = t % 2 == 1;
+            let via = [VIA_SYMLINK, VIA_DOTDOT, VIA_DOT][((t / 2) % 3) as usize];
+            let j = t / 6;
+            let mk = |n: &String, k: usize| En { name: n.clone(), kind: if n.ends_with('/') { 1 } else { 0 }, content: vec![b'a' + k as u8; 3 * k + 1], perm: Some(if n.ends_with('/') { 0o755 } else { 0o644 }) };
+            let e = vec![mk(&tn_r[(j / nt) as usize], 0), mk(&tn_r[(j % nt) as usize], 1)];
+            check_case_layout(&e, stream, base_r, (9 << 40) + t, st, (9 << 40) + t, "target-spelling", via);
+        });
+        ctx.stats.merge(s);
+        ctx.bound("target_spellings", json!({"spellings": ["<root>/shortcut/target with shortcut -> l1/l2/l3 (symbolic link)", "l1/l2/l3/sibling/../target", "l1/l2/./l3/target/."], "names": tn, "archives": "every ordered pair"}));
+    }
     // central record and local header disagree on the name: every (local, central) pair over 6 harmless and 9 escaping
     // names x {file, directory} x modes {0o777, 0o000, 0o4755}, alone and behind an ordinary first entry
     {
